@@ -1,0 +1,74 @@
+//go:build verif
+
+// Contracts for the verification engine in /verif (comment-only file; it is
+// compiled only with the build tag "verif" and contains no code).
+
+package codec
+
+// ---- C01: what a codec stores into the destination does not alias its input --------
+// (the input is the pooled receive buffer of the socket). reflect is abstracted:
+// SetString / SetBytes / url.ParseQuery keep what they are given, so they must be
+// given own copies, never a zero-copy view of the input.
+//@ ext (reflect.Value).SetString in codec.parseProperType
+//@   params v x
+//@   flags libframe
+//@   requires[own-copy-not-a-view-of-the-input] @C01 !zeroCopy(x)
+//@ ext (reflect.Value).SetBytes in codec.parseProperType
+//@   params v x
+//@   flags libframe
+//@   requires[own-copy-not-the-input-buffer] @C01 len(data) == 0 || base(x) != base(data)
+//@ ext net/url.ParseQuery in codec.(FormCodec).Unmarshal
+//@   params query
+//@   flags libframe
+//@   requires[own-copy-not-a-view-of-the-input] @C01 !zeroCopy(query)
+//@ func parseProperType
+//@   property C01
+//@   flags libframe
+//@ func (FormCodec).Unmarshal
+//@   property C01
+//@   flags libframe
+// the typed fast paths of the plain codec copy
+//@ func (PlainCodec).Unmarshal
+//@   property C01 C11
+//@   flags libframe seq
+//@   ensures[bytes-are-copied] @C01 istype(v, type(*[]byte)) && len(data) > 0 && old(base(*as(v, type(*[]byte)))) != base(data) ==> base(*as(v, type(*[]byte))) != base(data)
+//@   ensures[bytes-round-trip] @C11 istype(v, type(*[]byte)) ==> result == nil && len(*as(v, type(*[]byte))) == len(data)
+
+// ---- C11: element order and index range in the form codec's reflection loops ---------
+// monitors on reflect: the length last asked for, and the index the next element
+// access has to use (ascending, restarting at 0)
+//@ ghost global idxLen int
+//@ ghost global idxNext int
+//@ ext (reflect.Value).Len
+//@   flags libframe
+//@   modifies ghost.idxLen
+//@   ghostset ghost.idxLen = result
+//@   ensures result >= 0
+//@ ext reflect.MakeSlice
+//@   params typ n c
+//@   flags libframe
+//@   modifies ghost.idxLen
+//@   ghostset ghost.idxLen = n
+//@ ext (reflect.Value).Index in codec.setStructToForm
+//@   params v i
+//@   flags libframe
+//@   modifies ghost.idxNext
+//@   requires[in-range] @C11 0 <= i && i < ghost.idxLen
+//@   requires[in-element-order] @C11 i == 0 || i == ghost.idxNext
+//@   ghostset ghost.idxNext = i + 1
+//@ ext (reflect.Value).Index in codec.mapFormToStruct
+//@   params v i
+//@   flags libframe
+//@   modifies ghost.idxNext
+//@   requires[in-range] @C11 0 <= i && i < ghost.idxLen
+//@   requires[in-element-order] @C11 i == 0 || i == ghost.idxNext
+//@   ghostset ghost.idxNext = i + 1
+//@ func setStructToForm
+//@   property C11
+//@   flags libframe
+//@   loop 2: invariant[ascending] 0 <= i && (i == 0 || i == ghost.idxNext) && n == ghost.idxLen
+//@ func mapFormToStruct
+//@   property C11
+//@   flags libframe
+//@   loop 2: invariant[array-in-range-ascending] 0 <= i && (i == 0 || i == ghost.idxNext) && numElems <= ghost.idxLen
+//@   loop 3: invariant[slice-in-range-ascending] 0 <= i && (i == 0 || i == ghost.idxNext) && numElems == ghost.idxLen
